@@ -364,6 +364,8 @@ def mk_stream(sizes, skip=0, seed=1):
 def run_framer(h: Harness, source, **kw):
     args = ", ".join(f"{k}={k}" for k in kw)
     h.it.events.clear()
+    size = len(source) if isinstance(source, (bytes, bytearray)) else int(source.attrs.get("__size__", 4096))
+    h.it.max_steps = 50_000 + 400 * size        # a terminating framer needs a few dozen steps per byte at most
     try:
         kind, got = h.outcome(f"ccsds_generator(src{', ' + args if args else ''})", PK, src=source, **kw)
     except StepLimit:
@@ -407,6 +409,7 @@ def sources_for(stream: bytes, level: int):
 
 
 def framing_cases(ctx: Ctx, rule: str, *, truncation: bool, level: int):
+    nbad = 0
     prog = ctx.prog
     fi = prog.func(GEN)
     h = Harness(prog, source_externals(), max_steps=3_000_000)
@@ -446,6 +449,10 @@ def framing_cases(ctx: Ctx, rule: str, *, truncation: bool, level: int):
                     continue
                 ctx.decide(bad is None, rule, site, "all source kinds / read sizes / fragmentations agree", bad or "",
                            where=where(fi, fi.node))
+                nbad += bad is not None
+                if nbad >= 4:
+                    ctx.stats[f"{rule}_runs"] = total
+                    return          # enough counterexamples; the remaining cases would only repeat them
     ctx.stats[f"{rule}_runs"] = total
 
 
